@@ -17,7 +17,7 @@ type Lin struct {
 }
 
 func linConst(c int64) Lin { return Lin{coef: map[string]int64{}, c: c} }
-func linAtom(a string) Lin  { return Lin{coef: map[string]int64{a: 1}} }
+func linAtom(a string) Lin { return Lin{coef: map[string]int64{a: 1}} }
 
 func (l Lin) clone() Lin {
 	m := make(map[string]int64, len(l.coef))
@@ -50,9 +50,9 @@ func (l Lin) scale(k int64) Lin {
 	return r
 }
 
-func (l Lin) sub(o Lin) Lin     { return l.add(o.scale(-1)) }
+func (l Lin) sub(o Lin) Lin        { return l.add(o.scale(-1)) }
 func (l Lin) addConst(k int64) Lin { r := l.clone(); r.c += k; return r }
-func (l Lin) isConst() bool     { return len(l.coef) == 0 }
+func (l Lin) isConst() bool        { return len(l.coef) == 0 }
 
 func (l Lin) atoms() []string {
 	var out []string
